@@ -194,7 +194,10 @@ class Renderer:
         need_dc = bool(attrs) or any(e.get("init") is not None and not param_stmt for e in d["ents"])
         dc = need_dc or self.flag("dcolon", 3, 4)
         head = ts + "".join(", " + a for a in attrs)
-        split = len(ents_txt) > 1 and self.flag("split-entities", 1, 4)
+        # one comment on a declaration that names several entities documents all of them, so
+        # documented multi-entity declarations are never split into one statement per entity
+        documented = doc_ok and any(e.get("doc") for e in d["ents"])
+        split = len(ents_txt) > 1 and not documented and self.flag("split-entities", 1, 4)
         groups = [[x] for x in ents_txt] if split else [ents_txt]
         for g in groups:
             txt = head + (" :: " if dc else " ") + ", ".join(t for t, _ in g)
@@ -556,10 +559,13 @@ class Renderer:
                 out.append("!" + m["docmark"] + d)
             out.append("")
         indent_on = self.flag("indent", 3, 4)
+        prev_alt = False
         for ln in lines:
             txt = ln.text
             ind = " " * ch.int(7) if indent_on else ""
             if self.feat.get("comments", True) and ch.bool(1, 8):
+                if prev_alt:
+                    out.append("")      # a plain comment directly after a `!*` block would belong to it
                 out.append(ind + "! " + ch.choice(["plain comment", "it's", 'say "hi"', "x = f(1) ! not code", "end module"]))
             if self.feat.get("blank_lines", True) and ch.bool(1, 8):
                 out.append("")
@@ -590,6 +596,7 @@ class Renderer:
                 else:
                     for d in rest:
                         out.append(ind + "  !" + m["docmark"] + d)
+            prev_alt = bool(ln.post) and ln.docsty == "post_alt"
         return "\n".join(out) + "\n"
 
     def _in_iface(self, lines, ln):
@@ -632,19 +639,31 @@ class Renderer:
 
     # -- physical layout, fixed form
     def layout_fixed(self, lines, file_doc=None, length_limit=True):
+        """Fixed source form: label in columns 1-5, continuation mark in column 6, statement in 7-72,
+        comment lines with C, c, * or ! in column 1, optional sequence field from column 73."""
         ch = self.ch
         out = []
         m = self.marks
+        self.fixed_ok = True
         cchar = lambda: ch.choice(["C", "c", "*", "!"])
         if file_doc:
             for d in file_doc:
                 out.append("!" + m["docmark"] + d)
             out.append("")
+        NOLABEL = ("end", "contains", "else", "case", "type", "module", "submodule", "program", "subroutine", "function",
+                   "interface", "abstract", "block", "use", "implicit", "private", "public", "sequence", "enum", "import",
+                   "procedure", "generic", "final", "integer", "real", "double", "complex", "logical", "character", "class",
+                   "common", "namelist", "dimension", "parameter", "save", "intent", "optional", "allocatable", "pointer",
+                   "target", "volatile", "value", "protected", "asynchronous", "pure", "elemental", "recursive", "impure",
+                   "enumerator", "associate", "select", "where", "elsewhere", "do", "if", "forall")
+        prev_alt = False
         for ln in lines:
-            if ch.bool(1, 8):
-                out.append(cchar() + " " + ch.choice(["plain comment", "it's", "x = f(1)"]))
+            if self.feat.get("comments", True) and ch.bool(1, 8):
+                if prev_alt:
+                    out.append("")
+                out.append(cchar() + " " + ch.choice(["plain comment", "it's", "x = f(1)", "end module"]))
             if ch.bool(1, 10):
-                out.append("")
+                out.append(ch.choice(["", "   ", "      "]))
             if ln.pre:
                 if ln.docsty == "pre_alt":
                     out.append("!" + m["predocmark_alt"] + ln.pre[0])
@@ -654,37 +673,46 @@ class Renderer:
                     for d in ln.pre:
                         out.append("!" + m["predocmark"] + d)
             label = (ln.label or "")
-            if not label and self.feat.get("fixed_labels", True) and ch.bool(1, 12) and \
-                    not ln.text.lower().startswith(("end", "contains", "else", "case", "type", "module", "submodule",
-                                                    "program", "subroutine", "function", "interface", "abstract",
-                                                    "block", "use", "implicit", "private", "public", "sequence", "enum",
-                                                    "import", "procedure", "generic", "final", "integer", "real", "double",
-                                                    "complex", "logical", "character", "class", "common", "namelist",
-                                                    "dimension", "parameter", "save", "intent", "optional", "allocatable",
-                                                    "pointer", "target", "volatile", "value", "protected", "asynchronous",
-                                                    "pure", "elemental", "recursive", "impure")):
+            if not label and self.feat.get("fixed_labels", True) and ch.bool(1, 10) and \
+                    not ln.text.lower().startswith(NOLABEL) and "=" in ln.text and "::" not in ln.text:
                 label = str(ch.choice([10, 20, 100, 9999]))
-            pieces = self.break_fixed(ln.text)
+                self.used.setdefault("fixed-label", set()).add("yes")
+            pieces = self.break_fixed(ln.text) if not ln.nobreak else [ln.text]
+            rows = []
             for i, pc in enumerate(pieces):
                 if i == 0:
-                    row = f"{label:<5} " + pc
+                    rows.append(f"{label:>5} " + pc if label and ch.bool() else f"{label:<5} " + pc)
                 else:
-                    cc = ch.choice(list("&+$1*x.!")) if self.feat.get("fixed_contchars", True) else "&"
-                    row = "     " + cc + pc
+                    cc = ch.choice(list("&+$1*x.!>#")) if self.feat.get("fixed_contchars", True) else "&"
+                    self.used.setdefault("fixed-contchar", set()).add(cc)
+                    rows.append("     " + cc + pc)
+            if any(len(r) > 72 for r in rows) and length_limit:
+                self.fixed_ok = False
+            # inline documentation on the last physical line of the statement
+            inline = None
+            if ln.post and ln.docsty == "post" and self.feat.get("inline_docs", True) and ch.bool(1, 3):
+                cand = rows[-1] + " !" + m["docmark"] + ln.post[0]
+                if len(cand) <= 72 or not length_limit:
+                    rows[-1] = cand
+                    inline = ln.post[0]
+                    self.used.setdefault("fixed-inline-doc", set()).add("yes")
+            for i, row in enumerate(rows):
                 if length_limit and self.feat.get("fixed_seqfield", True) and ch.bool(1, 6) and len(row) <= 72:
-                    row = row.ljust(72) + ch.choice(["SEQ00010", "12345678", "x = 1", "abc"])
+                    row = row.ljust(72) + ch.choice(self.feat.get("seq_pool") or ["SEQ00010", "12345678", "x = 1", "abc"])
                     self.used.setdefault("fixed-seqfield", set()).add("yes")
                 out.append(row)
             if len(pieces) > 1:
                 self.used.setdefault("fixed-continuation", set()).add("yes")
             if ln.post:
-                if ln.docsty == "post_alt":
-                    out.append("!" + m["docmark_alt"] + ln.post[0])
-                    for d in ln.post[1:]:
+                rest = ln.post[1:] if inline is not None else ln.post
+                if ln.docsty == "post_alt" and rest:
+                    out.append("!" + m["docmark_alt"] + rest[0])
+                    for d in rest[1:]:
                         out.append("!" + d)
                 else:
-                    for d in ln.post:
+                    for d in rest:
                         out.append("!" + m["docmark"] + d)
+            prev_alt = bool(ln.post) and ln.docsty == "post_alt"
         return "\n".join(out) + "\n"
 
     def break_fixed(self, txt):
@@ -733,16 +761,18 @@ def render_file(f, ch=None, marks=None, features=None, form=None, length_limit=T
     form = form or f.get("form", "free")
     if form == "fixed":
         text = r.layout_fixed(lines, f.get("doc"), length_limit)
+        if not r.fixed_ok:
+            r.used["fixed-unbreakable"] = {"yes"}
     else:
         text = r.layout_free(lines, f.get("doc"))
     return text, {k: sorted(v) for k, v in r.used.items()}
 
 
-def render_project(project, ch=None, marks=None, features=None, form=None):
+def render_project(project, ch=None, marks=None, features=None, form=None, length_limit=True):
     files = {}
     used = {}
     for f in project["files"]:
-        text, u = render_file(f, ch, marks, features, form)
+        text, u = render_file(f, ch, marks, features, form, length_limit)
         path = f["path"]
         if form == "fixed" and not path.endswith(".f"):
             path = path.rsplit(".", 1)[0] + ".f"
